@@ -585,50 +585,57 @@ def _strip_var(block, var: S):
       "x/y mirror symmetry of the Hanan-grid code: gather_boundaries (x part vs y part), the add-row / add-column "
       "blocks of the region expansion, the centre/size arithmetic of the chosen ground rectangle, _cell_center", floor=4)
 def r6(ctx: Ctx) -> None:
-    # gather_boundaries: names paired by role (returned pair; the sorted source lists feeding them)
+    # gather_boundaries: the x part and the y part are images of each other (up to the names of the locals, the order of
+    # independent statements and the order of the returned pair)
+    from framelint.symm import closed_under
     fg = ctx.func(GEOM, "gather_boundaries")
-    ret = [n for n in walk_own(fg.node) if isinstance(n, ast.Return)]
-    ctx.require(len(ret) == 1, "gather_boundaries: expected one return")
-    rv = ret[0].value
-    if isinstance(rv, ast.Name):     # returned through a local: look at its only definition
-        defs__ = [n.value for n in walk_own(fg.node) if isinstance(n, ast.Assign) and len(n.targets) == 1 and isinstance(n.targets[0], ast.Name)
-                  and n.targets[0].id == rv.id]
-        if len(defs__) == 1:
-            rv = defs__[0]
-    ctx.require(isinstance(rv, ast.Tuple) and len(rv.elts) == 2 and all(isinstance(e, ast.Name) for e in rv.elts),
-                "gather_boundaries: does not return a pair of names")
-    ux, uy = [e.id for e in rv.elts]
-    src = {}
-    for n in walk_own(fg.node):
-        if isinstance(n, ast.For) and isinstance(n.iter, ast.Call) and call_name(n.iter) == "enumerate" and isinstance(n.iter.args[0], ast.Name):
-            for c in ast.walk(n):
-                if isinstance(c, ast.Call) and call_name(c) == "append" and isinstance(c.func.value, ast.Name) and c.func.value.id in (ux, uy):
-                    src[c.func.value.id] = n.iter.args[0].id
-    ctx.require(set(src) == {ux, uy}, "gather_boundaries: the two de-duplication loops were not found")
-    names = {ux, uy, src[ux], src[uy]}
-    opts = CanonOptions(keep_names=names)
-    c = Canon(fg, ctx.model, opts).function()
-    sg = sigma_xy(raw_subst={("l", ux): ("l", uy), ("l", uy): ("l", ux), ("l", src[ux]): ("l", src[uy]), ("l", src[uy]): ("l", src[ux])})
-    # order of independent statements differs between the image and the original: compare as multisets at top level
-    # and inside the collecting loop
-    def norm(block):
-        out = []
-        for st in block:
-            if st[0] == "for":
-                out.append(("for", st[1], st[2], tuple(sorted(st[3], key=skey)), st[4]))
-            else:
-                out.append(st)
-        return sorted(out, key=skey)
-    retst = [st for st in c if st[0] == "ret"]
-    ctx.require(retst == [("ret", ("tuple", (("l", ux), ("l", uy))))], "gather_boundaries: return is not the pair of de-duplicated lists")
-    c = tuple(st for st in c if st[0] != "ret")
-    a = norm(sg.apply(c))
-    b = norm(c)
-    ctx.site(fg.where, "gather_boundaries: x part and y part are mirror images", statements=len(c))
-    if _alpha(a) != _alpha(b):
-        d = diff_paths(tuple(_alpha(a)), tuple(_alpha(b)))
+    cg = canon_function(fg, ctx.model)
+    ok, ca, cb = closed_under(cg, sigma_xy())
+    ctx.site(fg.where, "gather_boundaries: x part and y part are mirror images", statements=len(cg))
+    uses_both = contains(cg, "ll") and contains(cg, "ur") and contains(cg, ("a", ("a", ("v", 0), "ll"), "x")) is not None
+    if not ok:
+        d = diff_paths(ca, cb)
         ctx.report(fg.where, f"mirror[gather_boundaries] {d[0] if d else ''}", "the x part and the y part of gather_boundaries are not mirror images",
                    lineno=fg.node.lineno, differences=d)
+    # anchor (a swap of the two results is symmetric too): the first result is the x one -- it is computed from the locals
+    # that receive .x coordinates, the second from those that receive .y coordinates
+    def axis_vars(axis):
+        vs_: set = set()
+
+        def dirty(e, extra):
+            return bool(atoms_of(e, lambda x: x[0] == "a" and x[2] == axis and x[1][0] == "a" and x[1][2] in ("ll", "ur"))) or \
+                any(contains(e, v) for v in vs_ | extra)
+
+        def walk(stmts, extra):
+            for st in stmts:
+                if st[0] == "set" and len(st) == 3 and st[1][:1] == ("v",) and dirty(st[2], extra):
+                    vs_.add(st[1])
+                elif st[0] == "aug" and len(st) == 4 and st[2][:1] == ("v",) and dirty(st[3], extra):
+                    vs_.add(st[2])
+                elif st[0] == "expr" and st[1][0] == "c" and st[1][1][0] == "a" and st[1][1][2] in ("append", "extend", "add", "insert") \
+                        and st[1][1][1][:1] == ("v",) and any(dirty(a_, extra) for a_ in st[1][2]):
+                    vs_.add(st[1][1][1])
+                elif st[0] == "for" and len(st) == 5:
+                    lv = set(atoms_of(st[1], lambda x: x[0] == "v" and len(x) == 2))
+                    walk(st[3], (extra | lv) if dirty(st[2], extra) else (extra - lv))     # loop variables carry the axis inside the loop only
+                elif st[0] == "if" and len(st) == 4:
+                    walk(st[2], extra)
+                    walk(st[3], extra)
+        for _ in range(4):
+            walk(cg, set())
+        return vs_
+    xs_, ys_ = axis_vars("x"), axis_vars("y")
+    rets = [st for st in cg if st[0] == "ret" and st[1][0] == "tuple" and len(st[1][1]) == 2]
+    ctx.site(fg.where, "the first result is the x list, the second the y list", x_locals=len(xs_ - ys_), y_locals=len(ys_ - xs_))
+    only_x, only_y = xs_ - ys_, ys_ - xs_
+    if len(rets) != 1 or not (any(contains(rets[0][1][1][0], v) for v in only_x) and not any(contains(rets[0][1][1][0], v) for v in only_y)
+                              and any(contains(rets[0][1][1][1], v) for v in only_y) and not any(contains(rets[0][1][1][1], v) for v in only_x)):
+        ctx.report(fg.where, "boundary-result-order", "gather_boundaries does not return (x coordinates, y coordinates) in this order", lineno=fg.node.lineno)
+    # both sides of every rectangle are gathered on each axis, the lists are sorted and de-duplicated with the tolerance
+    sides = {(x[2], x[1][2]) for x in atoms_of(cg, lambda x: x[0] == "a" and x[2] in ("x", "y") and x[1][0] == "a" and x[1][2] in ("ll", "ur"))}
+    ctx.site(fg.where, "gather_boundaries collects the low and the high side on both axes", sides=sorted(sides))
+    if sides != {("x", "ll"), ("x", "ur"), ("y", "ll"), ("y", "ur")}:
+        ctx.report(fg.where, f"boundary-sides {sorted(sides)}", "gather_boundaries does not collect both sides of every rectangle on both axes", lineno=fg.node.lineno)
 
     # _expand_rectangle: add-row block vs add-column block
     fe = ctx.func(DIE, "Die._expand_rectangle")
